@@ -264,7 +264,15 @@ def handleRaw (args : List String) : String :=
   match args.dropWhile (· ≠ "@toks") with
   | [] => "unsupported: no token fields"
   | _ :: tf =>
-    if tf.any (fun f => (f.splitOn " ").contains "##") then "unsupported: ## belongs to C12" else
+    -- `##` inside a `#define` line becomes `Concat` (the paste operator belongs to C12); elsewhere it is an ordinary token
+    let pasteInDefine (f : String) : Bool :=
+      (f.splitOn " E").any fun line =>
+        let ws := (line.splitOn " ").filter (fun w => w ≠ "" ∧ w ≠ "w")
+        ws.contains "##" && (match ws.dropWhile (fun w => w ≠ "p#") with
+          | _ :: "idefine" :: _ => true
+          | _ => false)
+    if tf.any (fun f => (f.startsWith "D " && (f.splitOn " ").contains "##") || pasteInDefine f) then
+      "unsupported: ## in a macro body belongs to C12" else
     let api := tf.filter (·.startsWith "D ")
     let files := tf.filter (·.startsWith "F ")
     let apiDefs : Option (List RsslVerif.Model.CondFile.ApiDef) := sequenceOpt (api.map fun f =>
